@@ -8,7 +8,7 @@ ASSUMPTIONS = ["formula vocabulary of Exec/Model.v (integers/None, calls, refere
 
 
 def run(tier, seed, rng):
-    return E.run_exec_property("C01", tier, rng, 150, 3000, {'p_fin_world': 0.2, 'alt': [(0.3, {'p_none': 0.3, 'p_allow_none': 0.8, 'p_raise': 0.02})]}, {'eval': 1}, (8, 30), ORACLES,
+    return E.run_exec_property("C01", tier, rng, 150, 3000, {'p_fin_world': 0.2, 'alt': [(0.3, {'p_none': 0.3, 'p_allow_none': 0.8, 'p_raise': 0.02})], 'p_ref': 0.35}, {'eval': 10, 'setref': 1, 'clearat': 1}, (8, 30), ORACLES,
         'random worlds (1-3 spaces, 3-8 cells, 0-2 parameters with defaults, cached/uncached, references by name and by attribute path, guarded recursion, try/except, raising expressions, None; 30% of the worlds with mostly None-allowing cells and frequent None results: held None values must be served as hits) and 8-30 top-level evaluations in random spellings (call, keywords, defaults, subscription, .value)' + "; non-trivial = at least one cache hit and one evaluation running several formulas; distinct by JSON of the case",
         lambda c, r: any(not ob['log'] and ob['out'][0]=='val' for ob in r['obs']) and any(len(ob['log'])>1 for ob in r['obs']), diff=None)
 
